@@ -136,6 +136,32 @@ func fileLayout(f immutable.TSSPFile, in *interner) (out map[uint64]*ChunkLayout
 				}
 				ctx.Release()
 			}
+			// stored chunk statistics (what count()/min()/max() queries are answered from) against the decoded rows
+			if stats, _, err := immutable.VerifC09Stats(cm); err != nil {
+				bad = append(bad, fmt.Sprintf("statistics of series %d in %s unreadable: %v", cm.GetSid(), filepath.Base(f.Path()), err))
+			} else {
+				rows := 0
+				for _, t := range lay.T {
+					rows += len(t)
+				}
+				for _, st := range stats {
+					want := rows
+					if !st.IsTime {
+						want = 0
+						for _, seg := range lay.C[st.Name] {
+							for _, v := range seg {
+								if v >= 0 {
+									want++
+								}
+							}
+						}
+					}
+					if int(st.Count) != want {
+						bad = append(bad, fmt.Sprintf("stored count of column %s of series %d in %s is %d, the chunk holds %d values",
+							st.Name, cm.GetSid(), filepath.Base(f.Path()), st.Count, want))
+					}
+				}
+			}
 			out[cm.GetSid()] = lay
 		}
 	}
@@ -400,7 +426,12 @@ func (c *colCtx) runOp(op string, emit func(*ColInstance)) {
 		}
 	}
 	inst.TmpLeft = countTmp(c.shardDir)
-	inst.Aband = len(ins) == 0 && len(outs) == 0 && (op != "merge" || nUnordB > 0) && len(snapB) > 1
+	// "fully compacted" for the planner: all ordered files share level and sequence (one split series)
+	sameSeq := true
+	for _, s := range snapB {
+		sameSeq = sameSeq && len(s.name) >= 13 && len(snapB[0].name) >= 13 && s.name[:13] == snapB[0].name[:13]
+	}
+	inst.Aband = len(ins) == 0 && len(outs) == 0 && (op != "merge" || nUnordB > 0) && len(snapB) > 1 && !(op == "full" && sameSeq)
 	// layouts per series for a compaction (for a merge the inputs also include the out-of-order files: oracle only).
 	// Several plans may have run (one output sequence per plan): the inputs of the plan that wrote the files of sequence s
 	// are the replaced files with a sequence from s up to the next output sequence.
